@@ -2,13 +2,14 @@ CONSTANTS
   Model = {"m1", "m2", "m3"}
   DataOf <- DataOfDef
   ParamOf <- ParamOfDef
+  Proc = {1}
   Names <- NamesAll
   Ops <- OpsQuick
   MaxOps = 3
   MaxCrashes = 0
-  MaxN = 3
+  MaxN = 4
   TrackHist = TRUE
-  Fix = {}
+  Legacy = {}
 INIT Init
 NEXT Next
 INVARIANT TypeOK
